@@ -1,10 +1,410 @@
-import ShkModel.Model.Audition
-/-! # C02 — activation periods (theorems under construction) -/
+import ShkModel.Lemmas.Period
+/-!
+# C02 — activation periods are judged independently and are always closed
+
+All theorems are about `Shk.Aud.run` (the model of `audition.audit`) for an **arbitrary**
+configuration `c` (any number of members, any expressions, any dependency shape: nothing is ever
+assumed about `eval` or `Expr.deps`), an arbitrary event list and an arbitrary end time.
+
+Vocabulary (`ShkModel/Lemmas/Period.lean`):
+* `proj n trace` / `markers n s` — what the trace shows for the auditor named `n`: `start`,
+  `rep lbl r` (a verdict `r`, with the ghost label `lbl` that was fired: 0 = predicate true,
+  1 = predicate not true, 2 = end of period), `err` (predicate failed to evaluate), `stop`.
+* `scan` — recogniser of `(start (rep|err)* stop)*` + possibly one open period; result: inside?
+* `track T?` — the same brackets **and** the table: each `start` resets the tracked state to
+  `T.start`, each verdict must be `Table.fire` of its label from the tracked state, and `stop` must
+  directly follow the verdict of the `end` label.
+* `labelsOf`, `repsOf` — the labels / the verdicts of a stretch of markers.
+
+Convention (DESIGN.md): the round in which the condition is found false, or the final round, is the
+*closing round* of the period and belongs to it.
+
+Hypothesis used where a member (not just a name) matters: member names are pairwise distinct, as
+in the code where they are map keys.
+-/
 namespace Shk.C02
 open Shk Shk.Aud
 
-/-- the final visit of a member closes its period -/
-theorem final_condOf (s : St) (m : Member) : condOf true s m = some (.ok false) := by
-  simp [condOf]
+/-! ## 1. Brackets: `(start (rep|err)* stop)*`, as an invariant of every step -/
+
+/-- one visit (`checkEventForAuditor`) of *any* member extends the markers of *any* name `n` by a
+word that drives the bracket recogniser from `n`'s `auditing` flag before to the flag after. -/
+theorem visit_bracketed (n : String) (c : Cfg) (final : Bool) (ts : Rat) (s : St) (m : Member) :
+    ∃ d, markers n (visit c final ts s m) = markers n s ++ d ∧
+      scan (s.aud n).auditing d = some ((visit c final ts s m).aud n).auditing :=
+  visit_deltaB n c final ts s m
+
+/-- visits of a member with another name emit no marker of `n` and leave `n`'s period state alone -/
+theorem visit_other_silent (n : String) (c : Cfg) (final : Bool) (ts : Rat) (s : St) (m : Member)
+    (h : m.name ≠ n) :
+    markers n (visit c final ts s m) = markers n s ∧
+      ((visit c final ts s m).aud n).auditing = (s.aud n).auditing ∧
+      ((visit c final ts s m).aud n).fsm = (s.aud n).fsm :=
+  let r := visit_same c final ts s m h; ⟨r.mks, r.auditing, r.fsm⟩
+
+/-- the same for a whole round (`checkEvent`: head assignments, then the fold over the members) -/
+theorem round_bracketed (n : String) (c : Cfg) (final : Bool) (ts : Rat) (xs : List Sample) (s : St) :
+    ∃ d, markers n (round c final ts xs s) = markers n s ++ d ∧
+      scan (s.aud n).auditing d = some ((round c final ts xs s).aud n).auditing :=
+  (stableB c n).round final ts xs s
+
+/-- the same for one event (a signal round, or the two rounds of a mood change) -/
+theorem stepEv_bracketed (n : String) (c : Cfg) (s : St) (e : Ev) :
+    ∃ d, markers n (stepEv c s e) = markers n s ++ d ∧
+      scan (s.aud n).auditing d = some ((stepEv c s e).aud n).auditing :=
+  (stableB c n).stepEv s e
+
+/-- **periods_bracketed**: for every configuration, history and end time, and every auditor name
+`n` (every member in particular): the markers of `n` in the trace are in
+`(start (rep|err)* stop)*` possibly followed by one open period, and the recogniser ends inside a
+period exactly when the model says `n` is still auditing.  (No hypothesis at all.) -/
+theorem periods_bracketed (c : Cfg) (evs : List Ev) (tEnd : Rat) (n : String) :
+    scan false (proj n (run c evs tEnd).out.reverse) = some ((run c evs tEnd).aud n).auditing :=
+  ((stableB c n).run evs tEnd).from_init
+
+/-- the same holds after every prefix of the events (before the deferred final round) -/
+theorem periods_bracketed_prefix (c : Cfg) (evs : List Ev) (n : String) :
+    scan false (proj n (preFinal c evs).out.reverse) = some ((preFinal c evs).aud n).auditing :=
+  ((stableB c n).preFinal evs).from_init
+
+/-! ## 2. Every period is closed, by exactly one end-of-period judgement -/
+
+/-- **all_closed**: if the final round itself did not abort, no member is auditing when the play
+ends — whatever the members' expressions mention. -/
+theorem all_closed (c : Cfg) (hnd : (c.members.map (·.name)).Nodup) (evs : List Ev) (tEnd : Rat)
+    (hab : (finalRound c evs tEnd).abort = none) :
+    ∀ m ∈ c.members, ((run c evs tEnd).aud m.name).auditing = false := by
+  intro m hm
+  show ((finalRound c evs tEnd).aud m.name).auditing = false
+  rw [finalRound_eq_fold] at hab ⊢
+  exact fold_final_closes c tEnd c.members hnd _
+    (fun k hk => audOK_finalBegin c hnd evs tEnd k hk) hab m hm
+
+/-- the same under the coarser hypothesis that the whole run reports no abort -/
+theorem all_closed_of_no_abort (c : Cfg) (hnd : (c.members.map (·.name)).Nodup) (evs : List Ev)
+    (tEnd : Rat) (hab : (run c evs tEnd).abort = none) :
+    ∀ m ∈ c.members, ((run c evs tEnd).aud m.name).auditing = false := by
+  refine all_closed c hnd evs tEnd ?_
+  rw [run_eq] at hab
+  cases h1 : (preFinal c evs).abort <;> simp_all [Option.or]
+
+/-- consequently the marker stream of every member is exactly `(start (rep|err)* stop)*`:
+nothing is left open. -/
+theorem all_periods_complete (c : Cfg) (hnd : (c.members.map (·.name)).Nodup) (evs : List Ev)
+    (tEnd : Rat) (hab : (finalRound c evs tEnd).abort = none) (m : Member) (hm : m ∈ c.members) :
+    scan false (proj m.name (run c evs tEnd).out.reverse) = some false := by
+  rw [periods_bracketed, all_closed c hnd evs tEnd hab m hm]
+
+/-- **final_visits_open**: when the member loop of the final round reaches member `m`
+(`st` = the state after the members before it), `m` is visited if its period is open — whatever
+its dependency shape, woken in that round or not. -/
+theorem final_visits_open (c : Cfg) (hnd : (c.members.map (·.name)).Nodup) (evs : List Ev)
+    (tEnd : Rat) (pre post : List Member) (m : Member) (hsplit : c.members = pre ++ m :: post) :
+    finalRound c evs tEnd =
+        (m :: post).foldl (rvisit c true tEnd) (pre.foldl (rvisit c true tEnd) (finalBegin c evs tEnd)) ∧
+      (((pre.foldl (rvisit c true tEnd) (finalBegin c evs tEnd)).aud m.name).auditing = true →
+        visited true (pre.foldl (rvisit c true tEnd) (finalBegin c evs tEnd)) m = true) := by
+  have hm : m ∈ c.members := by simp [hsplit]
+  refine ⟨by rw [finalRound_eq_fold, hsplit, List.foldl_append], fun ha => ?_⟩
+  have st := stableOK c hnd m hm
+  have hok : AudOK m (pre.foldl (rvisit c true tEnd) (finalBegin c evs tEnd)) :=
+    st.fold true tEnd pre (fun k hk => by simp [hsplit, hk]) _ (audOK_finalBegin c hnd evs tEnd m hm)
+  simp [visited, ha, hok ha]
+
+/-- the visiting rule itself: in the final round an open period suffices -/
+theorem visited_final_of_open (s : St) (m : Member) (hm : m.isAuditor = true)
+    (ha : (s.aud m.name).auditing = true) : visited true s m = true := by
+  simp [visited, hm, ha]
+
+/-- and that visit closes the period unless it aborts -/
+theorem final_visit_closes (c : Cfg) (ts : Rat) (s : St) (m : Member)
+    (h : (visit c true ts s m).abort = none) :
+    ((visit c true ts s m).aud m.name).auditing = false :=
+  visit_final_closes c ts s m h
+
+/-! ## 3. Fresh start and locality of the verdicts -/
+
+/-- **fresh_start**: wherever `.start m.name` is emitted (`startPeriod` is its only emitter), the
+modality state becomes the table's start state — for *every* earlier state `s`, hence
+independently of any earlier period. -/
+theorem fresh_start (s : St) (m : Member) (T : Table) (e : Expr) (he : m.expect = some (T, e)) :
+    ((startPeriod s m).aud m.name).fsm = T.start ∧
+      ((startPeriod s m).aud m.name).auditing = true ∧
+      (startPeriod s m).out = .start m.name :: s.out := by
+  simp [startPeriod, he, St.emit, setAud]
+
+/-- the round in which a period starts: the visit *is* "start afresh, run the assignments, judge
+the predicate", and the state the first verdict is fired from is `T.start` whatever `s` was. -/
+theorem fresh_start_visit (c : Cfg) (final : Bool) (ts : Rat) (s : St) (m : Member) (T : Table)
+    (e : Expr) (he : m.expect = some (T, e)) (hab : s.abort = none)
+    (ha : (s.aud m.name).auditing = false) (hc : condOf final s m = some (.ok true)) :
+    visit c final ts s m = checkExpect (assignAll c ts (startPeriod s m) m.assigns) ts m ∧
+      ((assignAll c ts (startPeriod s m) m.assigns).aud m.name).fsm = T.start := by
+  refine ⟨by simp [visit, hab, hc, ha], ?_⟩
+  rw [(assignAll_same c ts (startPeriod s m) m.assigns m.name).fsm]
+  exact (fresh_start s m T e he).1
+
+/-- the ghost label is the truth value of the predicate in that round: when the predicate is
+evaluated (no abort, dependencies satisfied), the verdict emitted is the `fire` step for label
+`t` if it evaluated to `true`, for label `f` if it evaluated to anything else; an evaluation
+error gives `repErr` and no step. -/
+theorem label_is_truth (s : St) (ts : Rat) (m : Member) (T : Table) (e : Expr)
+    (he : m.expect = some (T, e)) (hab : s.abort = none) (hd : hasDeps s e = true) :
+    (checkExpect s ts m).out =
+      match eval s.vals e with
+      | .ok v =>
+        .rep ts m.name (T.fire (s.aud m.name).fsm (Table.lbl (v == .sc (.bool true)))).2
+          (Table.lbl (v == .sc (.bool true))) :: s.out
+      | .err => .repErr ts m.name :: s.out
+      | .unmodelled => s.out := by
+  have hout : ∀ l, (fireExpect s ts m.name T l).out =
+      .rep ts m.name (T.fire (s.aud m.name).fsm l).2 l :: s.out := fun _ => rfl
+  unfold checkExpect
+  rw [if_neg (by simp [hab])]
+  simp only [he, hd, Bool.not_true, Bool.false_eq_true, if_false]
+  cases h : eval s.vals e with
+  | err => rfl
+  | unmodelled => rfl
+  | ok v =>
+    by_cases hv : v = .sc (.bool true)
+    · subst hv; exact hout 0
+    · have hb : (v == Val.sc (Sc.bool true)) = false := by simpa using hv
+      simp only [hb, Table.lbl, Bool.false_eq_true, if_false]
+      exact hout 1
+
+/-- when the predicate's dependencies are not satisfied nothing is judged in that round -/
+theorem unevaluated_is_silent (s : St) (ts : Rat) (m : Member) (T : Table) (e : Expr)
+    (he : m.expect = some (T, e)) (hd : hasDeps s e = false) : checkExpect s ts m = s := by
+  simp [checkExpect, he, hd]
+
+/-- **periods_tracked**: the tracking recogniser accepts the marker stream of every member and
+ends in the member's real state: outside a period, or inside with the real table state.  Since
+the recogniser forgets everything at each `start`, the real table state is a function of the
+labels of the current period only. -/
+theorem periods_tracked (c : Cfg) (hnd : (c.members.map (·.name)).Nodup) (evs : List Ev)
+    (tEnd : Rat) (m : Member) (hm : m ∈ c.members) :
+    track m.table? .out (proj m.name (run c evs tEnd).out.reverse) =
+      some (psOf m ((run c evs tEnd).aud m.name)) :=
+  ((stableP c hnd m hm).run evs tEnd).from_init
+
+/-- the same after every prefix of the events -/
+theorem periods_tracked_prefix (c : Cfg) (hnd : (c.members.map (·.name)).Nodup) (evs : List Ev)
+    (m : Member) (hm : m ∈ c.members) :
+    track m.table? .out (proj m.name (preFinal c evs).out.reverse) =
+      some (psOf m ((preFinal c evs).aud m.name)) :=
+  ((stableP c hnd m hm).preFinal evs).from_init
+
+/-- **verdicts_local**: take any closed period of a member with an `expects` clause, i.e. any way
+of cutting its marker stream as `pre ++ start :: body ++ stop :: post` with no `start`/`stop`
+inside `body`.  Then the labels fired in `body` are the truth values `bs` observed in that period
+followed by `end`, and the verdicts of `body` are `T.period T.start bs`: a function of the
+observations of that period alone (`repErr` entries carry no verdict). -/
+theorem verdicts_local (c : Cfg) (hnd : (c.members.map (·.name)).Nodup) (evs : List Ev)
+    (tEnd : Rat) (m : Member) (hm : m ∈ c.members) (T : Table) (e : Expr)
+    (he : m.expect = some (T, e)) (pre body post : List Mk)
+    (hsplit : proj m.name (run c evs tEnd).out.reverse = pre ++ Mk.start :: (body ++ Mk.stop :: post))
+    (hs : Mk.start ∉ body) (hp : Mk.stop ∉ body) :
+    ∃ bs : List Bool, labelsOf body = bs.map Table.lbl ++ [2] ∧
+      repsOf body = T.period T.start bs := by
+  have h := periods_tracked c hnd evs tEnd m hm
+  have ht : m.table? = some T := by simp [Member.table?, he]
+  rw [hsplit, ht] at h
+  obtain ⟨bs, h1, h2, _, _⟩ := track_period T body _ post _ (track_split_start _ _ _ _ _ h).2 hs hp
+  exact ⟨bs, h1, h2⟩
+
+/-- **exactly_one_end**: in every closed period of a member with an `expects` clause the verdict
+of the `end` label occurs exactly once and is the last marker before `stop`. -/
+theorem exactly_one_end (c : Cfg) (hnd : (c.members.map (·.name)).Nodup) (evs : List Ev)
+    (tEnd : Rat) (m : Member) (hm : m ∈ c.members) (T : Table) (e : Expr)
+    (he : m.expect = some (T, e)) (pre body post : List Mk)
+    (hsplit : proj m.name (run c evs tEnd).out.reverse = pre ++ Mk.start :: (body ++ Mk.stop :: post))
+    (hs : Mk.start ∉ body) (hp : Mk.stop ∉ body) :
+    (∃ body' r, body = body' ++ [Mk.rep 2 r]) ∧ (labelsOf body).count 2 = 1 := by
+  have h := periods_tracked c hnd evs tEnd m hm
+  have ht : m.table? = some T := by simp [Member.table?, he]
+  rw [hsplit, ht] at h
+  obtain ⟨bs, h1, _, h3, _⟩ := track_period T body _ post _ (track_split_start _ _ _ _ _ h).2 hs hp
+  refine ⟨h3, ?_⟩
+  rw [h1, List.count_append]
+  have : (bs.map Table.lbl).count 2 = 0 := by
+    rw [List.count_eq_zero]
+    intro hmem
+    obtain ⟨b, _, hb⟩ := List.mem_map.1 hmem
+    cases b <;> simp [Table.lbl] at hb
+  simp [this]
+
+/-- a member without an `expects` clause only starts and stops: its closed periods are empty -/
+theorem plain_periods_empty (c : Cfg) (hnd : (c.members.map (·.name)).Nodup) (evs : List Ev)
+    (tEnd : Rat) (m : Member) (hm : m ∈ c.members) (he : m.expect = none) :
+    ∀ k ∈ proj m.name (run c evs tEnd).out.reverse, k = Mk.start ∨ k = Mk.stop := by
+  have h := periods_tracked c hnd evs tEnd m hm
+  have ht : m.table? = none := by simp [Member.table?, he]
+  rw [ht] at h
+  generalize proj m.name (run c evs tEnd).out.reverse = l at h
+  generalize PS.out = p at h
+  generalize psOf m _ = p' at h
+  induction l generalizing p with
+  | nil => intro k hk; cases hk
+  | cons a l ih =>
+    intro k hk
+    simp only [track, runA] at h
+    cases hq : pstep none p a with
+    | none => rw [hq] at h; cases h
+    | some q =>
+      rw [hq] at h
+      rcases List.mem_cons.1 hk with rfl | hk'
+      · cases p <;> cases k <;> simp [pstep] at hq <;> simp
+      · exact ih q h k hk'
+
+/-- the open period (if any) at the end of the run: the verdicts so far, completed by the `end`
+verdict still due from the member's real table state, form `T.period T.start bs` for the truth
+values `bs` observed since the last `start`. -/
+theorem verdicts_local_open (c : Cfg) (hnd : (c.members.map (·.name)).Nodup) (evs : List Ev)
+    (tEnd : Rat) (m : Member) (hm : m ∈ c.members) (T : Table) (e : Expr)
+    (he : m.expect = some (T, e)) (pre body : List Mk)
+    (hsplit : proj m.name (run c evs tEnd).out.reverse = pre ++ Mk.start :: body)
+    (hs : Mk.start ∉ body) (hp : Mk.stop ∉ body) :
+    ((run c evs tEnd).aud m.name).auditing = true ∧
+    ∃ bs : List Bool, labelsOf body = bs.map Table.lbl ∧
+      T.period T.start bs =
+        repsOf body ++ [(T.fire ((run c evs tEnd).aud m.name).fsm 2).2] := by
+  have h := periods_tracked c hnd evs tEnd m hm
+  have ht : m.table? = some T := by simp [Member.table?, he]
+  rw [hsplit, ht] at h
+  rcases track_open T body _ _ (track_split_start _ _ _ _ _ h).2 hs hp with ⟨q', bs, h1, h2, h3⟩ | h4
+  · cases ha : ((run c evs tEnd).aud m.name).auditing with
+    | false => simp [psOf, ha] at h1
+    | true =>
+      simp only [psOf, ha, he, Option.isSome_some, if_true, PS.ins.injEq] at h1
+      exact ⟨rfl, bs, h2, by rw [h1]; exact h3⟩
+  · cases ha : ((run c evs tEnd).aud m.name).auditing <;> simp [psOf, ha] at h4
+
+/-! ## 4. Nothing is judged, computed or collected outside periods -/
+
+/-- **silent_outside**: a visit of a member that is not auditing and whose condition does not
+hold now (false, dependencies unsatisfied, error, or the final round) runs no assignment, judges
+nothing and emits nothing: values, outputs and auditor states are unchanged.  (By `visit`'s
+structure these are the only visits outside a period; `periods_bracketed` is the trace-level
+counterpart for verdicts.) -/
+theorem silent_outside (c : Cfg) (final : Bool) (ts : Rat) (s : St) (m : Member)
+    (ha : (s.aud m.name).auditing = false) (hc : condOf final s m ≠ some (.ok true)) :
+    (visit c final ts s m).vals = s.vals ∧ (visit c final ts s m).out = s.out ∧
+      (visit c final ts s m).aud = s.aud := by
+  unfold visit
+  split
+  · exact ⟨rfl, rfl, rfl⟩
+  · split
+    · exact ⟨rfl, rfl, rfl⟩
+    · exact ⟨rfl, rfl, rfl⟩
+    · next b hb =>
+      cases b with
+      | true => exact absurd hb hc
+      | false => simp [ha]
+
+/-- conversely, `assignAll` and `checkExpect` run in a visit only in a round of a period -/
+theorem active_only_inside (c : Cfg) (final : Bool) (ts : Rat) (s : St) (m : Member)
+    (h : visit c final ts s m ≠ s) :
+    s.abort = none ∧
+      ((s.aud m.name).auditing = true ∨ condOf final s m = some (.ok true) ∨
+        ∃ a, condOf final s m = some (.error a)) := by
+  unfold visit at h
+  split at h
+  · exact absurd rfl h
+  · next hab =>
+    refine ⟨by simpa using hab, ?_⟩
+    split at h
+    · exact absurd rfl h
+    · next a hc => exact .inr (.inr ⟨a, hc⟩)
+    · next b hb =>
+      cases ha : (s.aud m.name).auditing with
+      | true => exact .inl rfl
+      | false =>
+        cases b with
+        | true => exact .inr (.inl hb)
+        | false => simp [ha] at h
+
+/-! ## 5. The pre-fix rule left a signal-only auditor open -/
+
+/-- witness of the defect (checked by evaluation in the kernel): with the old visiting rule
+(`visitedOld`: only woken members are visited, in the final round too) the auditor of `exSigOnly`,
+which mentions only `[x s]`, is still auditing after the final round of the history
+"one sample `[x s] = 5`, end at 10": its period never gets its `end` judgement nor its `stop`. -/
+theorem old_rule_leaves_open :
+    ((runOld exSigOnly [.sig 1 (exSample 5)] 10).aud "sig").auditing = true ∧
+      (runOld exSigOnly [.sig 1 (exSample 5)] 10).abort = none ∧
+      proj "sig" (runOld exSigOnly [.sig 1 (exSample 5)] 10).out.reverse =
+        [.start, .rep 1 .info] := by decide
+
+/-- with the repaired rule the same history is closed: `eventually` is judged `bad` at the end -/
+theorem new_rule_closes :
+    ((run exSigOnly [.sig 1 (exSample 5)] 10).aud "sig").auditing = false ∧
+      proj "sig" (run exSigOnly [.sig 1 (exSample 5)] 10).out.reverse =
+        [.start, .rep 1 .info, .rep 2 .bad, .stop] := by decide
+
+/-! ## Non-vacuity -/
+
+/-- the hypotheses are satisfiable: distinct names, two members (one of them signal-only) -/
+example : (exCfg.members.map (·.name)).Nodup ∧ exCfg.members.length = 2 := by decide
+
+/-- … and the final round of the example history does not abort -/
+example : (finalRound exCfg exEvs 10).abort = none ∧ (run exCfg exEvs 10).abort = none := by decide
+
+/-- the example history gives each of the two members two periods; the second period of each is
+open when the play ends and is closed by the final round (time 10) -/
+example : proj "watch" (run exCfg exEvs 10).out.reverse =
+    [.start, .rep 0 .good, .rep 2 .good, .stop, .start, .rep 1 .info, .rep 2 .bad, .stop] := by decide
+
+example : proj "sig" (run exCfg exEvs 10).out.reverse =
+    [.start, .rep 0 .info, .rep 1 .bad, .rep 0 .info, .rep 2 .good, .stop,
+     .start, .rep 0 .info, .rep 2 .good, .stop] := by decide
+
+/-- before the final round both second periods are indeed open -/
+example : ((preFinal exCfg exEvs).aud "watch").auditing = true ∧
+    ((preFinal exCfg exEvs).aud "sig").auditing = true := by decide
+
+/-- the hypotheses of `verdicts_local` / `exactly_one_end` hold for the first period of `sig`
+(`pre = []`), and the period is explained by the observations `[true, false, true]` alone -/
+example :
+    proj "sig" (run exCfg exEvs 10).out.reverse =
+      [] ++ Mk.start :: ([.rep 0 .info, .rep 1 .bad, .rep 0 .info, .rep 2 .good] ++
+        Mk.stop :: [.start, .rep 0 .info, .rep 2 .good, .stop]) ∧
+    Mk.start ∉ [Mk.rep 0 .info, .rep 1 .bad, .rep 0 .info, .rep 2 .good] ∧
+    Mk.stop ∉ [Mk.rep 0 .info, .rep 1 .bad, .rep 0 .info, .rep 2 .good] ∧
+    repsOf [Mk.rep 0 .info, .rep 1 .bad, .rep 0 .info, .rep 2 .good] =
+      exAlways.period exAlways.start [true, false, true] := by decide
+
+/-- … and for its second period (`pre` = the whole first period): a fresh start, `[true]` only -/
+example :
+    proj "sig" (run exCfg exEvs 10).out.reverse =
+      [.start, .rep 0 .info, .rep 1 .bad, .rep 0 .info, .rep 2 .good, .stop] ++
+        Mk.start :: ([.rep 0 .info, .rep 2 .good] ++ Mk.stop :: []) ∧
+    repsOf [Mk.rep 0 .info, .rep 2 .good] = exAlways.period exAlways.start [true] := by decide
+
+/-- the hypothesis of `verdicts_local_open` holds before… the final round is what closes it: the
+`abort` hypothesis of `all_closed` cannot be dropped.  Here a `computes` expression fails in the
+closing (final) round; the loop returns the error and the period stays open. -/
+example : (exAbortCfg.members.map (·.name)).Nodup ∧
+    (finalRound exAbortCfg [.sig 1 (exSample 5)] 10).abort = some .evalError ∧
+    ((run exAbortCfg [.sig 1 (exSample 5)] 10).aud "sig").auditing = true ∧
+    proj "sig" (run exAbortCfg [.sig 1 (exSample 5)] 10).out.reverse = [.start, .rep 1 .info] := by
+  decide
+
+/-- the hypotheses of `silent_outside` hold e.g. for the signal-only auditor in the initial state
+(dependencies unsatisfied) … -/
+example : (({} : St).aud "sig").auditing = false ∧
+    ∀ m ∈ exSigOnly.members, condOf false {} m = none := by
+  refine ⟨rfl, ?_⟩
+  intro m hm
+  simp only [exSigOnly, List.mem_singleton] at hm
+  subst hm
+  rfl
+
+/-- … and those of `fresh_start_visit` in the round of the first sample -/
+example : ∀ m ∈ exSigOnly.members,
+    condOf false (beginRound exSigOnly 1 (exSample 5) (start exSigOnly)) m = some (.ok true) := by
+  intro m hm
+  simp only [exSigOnly, List.mem_singleton] at hm
+  subst hm
+  rfl
 
 end Shk.C02
